@@ -2003,3 +2003,40 @@ theorem chain_define (σ : Store) (ρ x v) (i : Nat) : chain (σ.define ρ x v) 
   unfold chain; rw [frames_size_define, chainAux_define]
 
 end Ruschm.Eval
+
+namespace Ruschm.Eval
+open Ref (bindRest)
+
+/-! ## Parameter binding and `apply` -/
+
+theorem arityOk_variadic (n m : Nat) : arityOk n true m = true ↔ n ≤ m := by
+  simp [arityOk]
+theorem arityOk_fixed (n m : Nat) : arityOk n false m = true ↔ m = n := by
+  simp [arityOk]; omega
+
+theorem bindFixed_eq_bindAll (σ : Store) (ρ : Nat) (fixed : List String) (args : List Value)
+    (h : fixed.length ≤ args.length) :
+    bindFixed σ ρ fixed args = (.ok (args.drop fixed.length), Ref.bindAll σ ρ fixed args) := by
+  induction fixed generalizing σ args with
+  | nil => simp [bindFixed, Ref.bindAll]
+  | cons f fs ih =>
+    cases args with
+    | nil => simp at h
+    | cons a as =>
+      simp only [bindFixed, Ref.bindAll, List.length_cons, List.drop_succ_cons]
+      exact ih _ _ (by simpa using h)
+
+theorem elems_ofList (vs : List Value) : (Value.ofList vs).elems = vs := by
+  induction vs with
+  | nil => rfl
+  | cons v vs ih => simp [Value.ofList, Value.elems, ih]
+
+theorem spreadApply_snoc {f : Value} {as : List Value} {lst : Value} (hf : (procArity f).isSome)
+    (hl : lst = .nil ∨ ∃ a d, lst = .pair a d) :
+    spreadApply (f :: (as ++ [lst])) = .ok (f, as ++ lst.elems) := by
+  obtain ⟨ar, har⟩ := Option.isSome_iff_exists.mp hf
+  unfold spreadApply
+  simp only [har, List.getLast?_append, List.getLast?_singleton, List.dropLast_concat]
+  rcases hl with rfl | ⟨a, d, rfl⟩ <;> simp
+
+end Ruschm.Eval
